@@ -37,9 +37,9 @@ func init() {
 	Props["C01"] = PropDef{
 		Gen: func(t *rapid.T, thorough bool) *Script {
 			o := mixedOpts(thorough)
-			o.Overhead, o.DRA = true, true
+			o.Overhead, o.DRA, o.SchedCrash = true, true, true
 			if chance(t, "faultfree", 40) {
-				o.Faults, o.BindFailures = false, false
+				o.Faults, o.BindFailures, o.SchedCrash = false, false, false
 				return GenScript(t, "C01", "mixed-faultfree", o)
 			}
 			if chance(t, "pressure", 30) {
@@ -52,9 +52,9 @@ func init() {
 	Props["C14"] = PropDef{
 		Gen: func(t *rapid.T, thorough bool) *Script {
 			o := mixedOpts(thorough)
-			o.Overhead, o.DRA = true, true
+			o.Overhead, o.DRA, o.SchedCrash = true, true, true
 			if chance(t, "faultfree", 50) {
-				o.Faults, o.BindFailures = false, false
+				o.Faults, o.BindFailures, o.SchedCrash = false, false, false
 				return GenScript(t, "C14", "mixed-faultfree", o)
 			}
 			return GenScript(t, "C14", "mixed-faults", o)
@@ -224,6 +224,7 @@ func init() {
 			o := mixedOpts(thorough)
 			o.MIG = false
 			o.Faults = chance(t, "faulty", 40) // failing bind / evict API calls in the middle of a commit
+			o.SchedCrash = o.Faults
 			if chance(t, "sharedpressure", 35) {
 				return GenSharedGPUScript(t, "C02", o)
 			}
